@@ -18,15 +18,24 @@ RULE = ('Exhaustive: every ordered pair of set partitions of [n] (restricted gro
         'Generated: element-wise pairs (n<=64) and PRNG-built structured families (independent, function, noisy '
         'copy, constant / all-distinct side, dominant value + singletons, few large + many singleton strata, '
         'row-permuted copy, identical) with n up to 2000 (quick) / 10^6 (thorough); a "wide" clause with more than 2^16 distinct '
-        'feature codes (n 65 600 - 72 000, dense or sparse codes) against a target with 2-4 strata. Non-trivial = both sides '
+        'feature codes (n 65 600 - 72 000, dense or sparse codes) against a target with 2-4 strata; a "high-card" clause (n 3000-12000, '
+        '1100..n/2 feature values); a "views" clause where the two arguments are overlapping windows of one int32 buffer. Every pair is '
+        'scored twice on the same caller-owned array objects. Non-trivial = both sides '
         'non-constant and (I_ref > 1e-3 or at least 2x2 occupied joint cells); distinct = digest of (Y, X).')
 ASSUMPTIONS = ['reference = textbook sum p_xy ln(p_xy/(p_x p_y)) in float64 with math.fsum',
                'tolerance 2e-5 + 2e-6*(H(X)+H(Y)) covers float32 rounding of per-stratum terms and the result']
 
 
+def own(v):
+    """The caller's own int32 array (scored repeatedly, as a caller holding its data would)."""
+    return np.ascontiguousarray(v, dtype=np.int32).copy()
+
+
 def mi(Y, X):
-    return float(cut.mutual_info_estimator_numba(
-        np.ascontiguousarray(Y, dtype=np.int32), np.ascontiguousarray(X, dtype=np.int32), np.float32(1.0), False))
+    """Score on caller-owned int32 arrays: `Y`, `X` may be int32 arrays the oracle keeps and passes again."""
+    Ya = Y if isinstance(Y, np.ndarray) and Y.dtype == np.int32 else own(Y)
+    Xa = X if isinstance(X, np.ndarray) and X.dtype == np.int32 else own(X)
+    return float(cut.mutual_info_estimator_numba(Ya, Xa, np.float32(1.0), False))
 
 
 def _nontrivial(Y, X, iref):
@@ -37,12 +46,18 @@ def _nontrivial(Y, X, iref):
 
 
 def oracle_reference(case, rec):
-    Y, X = gens.materialize_pair(case)
+    if 'lagged' in case:
+        _, Ya, Xa = gens.build_lagged(case['lagged'])      # overlapping int32 views of one buffer
+        Y, X = Ya.astype(np.int64), Xa.astype(np.int64)     # values as passed, kept for the reference
+        rec.cls('overlapping-views')
+    else:
+        Y, X = gens.materialize_pair(case)
+        Ya, Xa = own(Y), own(X)
     n = len(X)
     hx, hy = rm.entropy(X), rm.entropy(Y)
     t = rm.tol(hx=hx, hy=hy)
     iref = rm.mi_ref(Y, X)
-    got = mi(Y, X)
+    got = mi(Ya, Xa)
     rec.nt(_nontrivial(Y, X, iref), key=[Y.tolist(), X.tolist()] if n <= 64 else case)
     if 'wide' in case:
         rec.cls('wide:>65536-distinct-codes')
@@ -51,6 +66,12 @@ def oracle_reference(case, rec):
         rec.cls('fam=' + case['gen']['fam'])
     if not math.isfinite(got) or abs(got - iref) > t:
         raise Violation(f'mi(Y,X)={got!r} but plug-in MI={iref!r} (tol {t:.2e}), n={n}')
+    if n <= 20000:
+        # the same objects scored again (a caller reusing its arrays): still the plug-in MI of the vectors the caller passed
+        again = mi(Ya, Xa)
+        if abs(again - iref) > t:
+            raise Violation(f'second call on the same array objects gives {again!r}, first gave {got!r}, plug-in MI={iref!r} '
+                            f'(n={n}); arguments unchanged by the caller', kind='C01/repeat-call')
 
 
 def oracle_corollaries(case, rec):
@@ -74,7 +95,7 @@ def oracle_corollaries(case, rec):
         raise Violation(f'self score {sx!r} != H(X)={hx!r}', kind='C01/self')
 
 
-ORACLES = {'C01/wide': oracle_reference, 'C01/reference': oracle_reference, 'C01/corollaries': oracle_corollaries,
+ORACLES = {'C01/repeat-call': oracle_reference, 'C01/views': oracle_reference, 'C01/high-card': oracle_reference, 'C01/wide': oracle_reference, 'C01/reference': oracle_reference, 'C01/corollaries': oracle_corollaries,
            'C01/exhaustive': oracle_reference}
 for _k in ('symmetry', 'nonneg', 'constant', 'upper', 'self'):
     ORACLES['C01/' + _k] = oracle_corollaries
@@ -82,8 +103,17 @@ for _k in ('symmetry', 'nonneg', 'constant', 'upper', 'self'):
 
 def pair_strategy(tier):
     sizes = ((2, 8), (9, 64), (65, 2000))
-    parts = [gens.small_pair(), gens.family_pair(sizes=sizes)]
+    parts = [gens.small_pair(), gens.family_pair(sizes=sizes), recoded_pair()]
     return st.one_of(*parts)
+
+
+@st.composite
+def recoded_pair(draw):
+    """A small pair whose codes are recoded injectively (sparse, lattice of powers of two with the top code 2^20-1, big offsets)."""
+    base = draw(gens.small_pair(max_n=40))
+    Y = gens.apply_relabel(base['Y'], draw(gens.relabel_spec()))
+    X = gens.apply_relabel(base['X'], draw(gens.relabel_spec()))
+    return {'Y': Y.tolist(), 'X': X.tolist()}
 
 
 def big_pair_strategy():
@@ -171,6 +201,8 @@ def run(ctx):
         Clause('C01/corollaries', lambda: pair_strategy(ctx.tier), oracle_corollaries, quick=800, thorough=30000,
                quick_shards=4),
     ]
+    clauses.append(Clause('C01/views', lambda: gens.lagged_pair(), oracle_reference, quick=300, thorough=20000, quick_shards=2))
+    clauses.append(Clause('C01/high-card', lambda: gens.highcard_pair(), oracle_reference, quick=24, thorough=600, quick_shards=8))
     clauses.append(Clause('C01/wide', lambda: gens.wide_pair(), oracle_reference, quick=4, thorough=48, quick_shards=4,
                           thorough_shards=16))
     if ctx.tier == 'thorough':
